@@ -213,6 +213,8 @@ def printers(ctx, rep, T):
                 cv0 = cv
                 while isinstance(cv, dict) and cv.get('k') == 'var':
                     cv = cv['v']
+                if isinstance(cv, dict) and cv.get('k') == 'loop_ran':
+                    continue  # "the loop body ran" (a string built inside a loop): per element, not a condition on the variant
                 ok = isinstance(cv, dict) and cv.get('k') == 'op' and cv.get('op') in ('==', '!=')
                 if ok:
                     def nv(comp):
